@@ -338,3 +338,101 @@ def nautilus_units(cx, fe, info):
                             tag=tag + ('[pool]' if pooled else '[serial]'))
     fn_entry(fe, info, Q + 'contains')
     fn_entry(fe, info, Q + 'sample')
+
+
+def worker_units(cx, fe, info):
+    """NautilusBound.reset empties the proposal cache and zeroes the counters;
+    _reset_and_sample (what a pool worker runs on its pickled copy) resets
+    BEFORE it samples, so a worker returns only its own draws - never the
+    leftover proposals its copy inherited from the parent."""
+    reg = new_registry(fe)
+    G = {}
+    install_nautilus_theory(reg, G)
+
+    def u_reset(ex, st, u, args, kw, node):
+        G['outer_reset_rng'] = args[0] if args else kw.get('rng')
+        st.ghost['ub_counts'] = dict(n_sample=0, n_reject=0)
+        return None
+    reg.sort_methods[('UnionB', 'reset')] = u_reset
+    reg.method_effects.setdefault('reset', dict(fields=[], ghost=[
+        'ub_counts'], arg_cells=[]))
+    ex = Executor(cx, fe, reg)
+    Q = BQ + 'nautilus.NautilusBound.'
+
+    def make(ex_, st):
+        shift_axioms(st)
+        u = fresh('UnionB', 'outer_union')
+        nn = z3.Int(uid('n_neural'))
+        st.assume(nn >= 1)
+        nbs = A.fresh_slist(st, 'NeuralB', 'neural_bounds', n=nn)
+        cache = A.fresh_arr(st, 'Pt', 'inherited_cache')
+        G.update(outer=u.t, neural=nbs, shifted=False)
+        nd = fresh('int', 'n_dim')
+        st.assume(nd.t >= 1)
+        f = dict(n_dim=nd, shift=None, neural_bounds=st.alloc(nbs, 'nbs'),
+                 outer_bound=u, rng=Opaque('rng_old'),
+                 points=st.alloc(cache, 'cache'),
+                 n_sample=fresh('int', 'n_sample'),
+                 n_reject=fresh('int', 'n_reject'))
+        return st.alloc(ObjRec('NautilusBound', f), 'self')
+
+    def env_r(ex_, st):
+        G['rng_new'] = Opaque('rng_worker')
+        return dict(self=make(ex_, st), rng=G['rng_new'])
+
+    def post_r(Vo, Vn, res):
+        rec = Vn.st.cell(Vn.raw('self'))
+        cnt = Vn.st.ghost.get('ub_counts', {})
+        return [('cache_emptied_and_counters_zeroed', z3.And(
+            Vn('self.points').n == 0, Vn.int('self.n_sample') == 0,
+            Vn.int('self.n_reject') == 0)),
+            ('outer_bound_reset_with_the_same_generator', z3.BoolVal(
+                G.get('outer_reset_rng') is G['rng_new'] and
+                cnt.get('n_sample') == 0 and cnt.get('n_reject') == 0)),
+            ('generator_replaced', z3.BoolVal(
+                rec.fields.get('rng') is G['rng_new']))]
+    c_reset = FnContract(Q + 'reset', params=['rng'], defaults=dict(rng=None),
+                         post=post_r, mod_fields=['points', 'n_sample',
+                                                  'n_reject', 'rng'],
+                         mod_ghost=['ub_counts'])
+    verify_function(ex, Q + 'reset', c_reset, env_r)
+    fn_entry(fe, info, Q + 'reset')
+
+    # _reset_and_sample against the contracts of reset and sample
+    def reset_result(ex_, st, V):
+        rec = st.cell(V.raw('self'))
+        rec.fields['points'] = st.alloc(A.fresh_arr(st, 'Pt', 'empty', n=0),
+                                        'empty')
+        rec.fields['n_sample'] = 0
+        rec.fields['n_reject'] = 0
+        st.ghost['reset_done'] = True
+        return None
+    reg.add_contract(FnContract(
+        Q + 'reset', params=['rng'], defaults=dict(rng=None),
+        result=reset_result, mod_fields=['points', 'n_sample', 'n_reject',
+                                         'rng'], mod_ghost=['ub_counts']))
+
+    def sample_pre(V):
+        return [('worker_samples_into_an_empty_cache', z3.And(
+            z3.BoolVal(bool(V.st.ghost.get('reset_done'))),
+            V('self.points').n == 0, V.int('self.n_sample') == 0))]
+    reg.add_contract(FnContract(
+        Q + 'sample', params=['n_points', 'return_points', 'pool'],
+        defaults=dict(n_points=100, return_points=True, pool=None),
+        pre=sample_pre, mod_fields=['points', 'n_sample', 'n_reject'],
+        mod_ghost=['rng', 'ub_counts']))
+
+    def env_w(ex_, st):
+        n = fresh('int', 'n_points')
+        st.assume(n.t >= 0)
+        return dict(self=make(ex_, st), n_points=n, rng=Opaque('rng_worker'))
+
+    def post_w(Vo, Vn, res):
+        return [('returns_the_worker_copy_itself', z3.BoolVal(
+            res is Vn.raw('self')))]
+    verify_function(ex, Q + '_reset_and_sample', FnContract(
+        Q + '_reset_and_sample', params=['n_points', 'rng'],
+        defaults=dict(n_points=100, rng=None), post=post_w,
+        mod_fields=['points', 'n_sample', 'n_reject', 'rng'],
+        mod_ghost=['rng', 'ub_counts']), env_w)
+    fn_entry(fe, info, Q + '_reset_and_sample')
